@@ -141,6 +141,16 @@ Example C01_resolves_witness :
   bound scs = 3 /\ results (strip (tr _ w)) = [OVals [7; 9]].
 Proof. vm_compute. split; reflexivity. Qed.
 
+(* ... join and try_join alike (slice and tuple variants), with only "every script has a Ready step and never panics" assumed: within [bound scs]
+   rounds the executor has been handed the result - for try_join the Ok vector or the first error, whichever C05 says it is *)
+Theorem C01_join_family_returns_under_wake_driven_executor tuple tryj scs :
+  (forall i, i < length scs -> hasready (nth i scs []) = true) -> (forall m st, In st (nth m scs []) -> answer st <> APanic) -> 0 < length scs ->
+  let w := rounds jst j_slots j_awaited (fun _ i => i) j_handle tuple tuple j_order (fun _ => None) j_pre_any j_finish (fun s => s) j_drop (fun _ => true)
+             (@no_mut jst) (bound scs) (join_world true tryj tuple scs []) in
+  finished _ w = true /\ returned _ w /\ dropped _ w = false /\ exists ops, w = join_world true tryj tuple scs ops.
+Proof. exact (joinfam_fair_returns tuple tryj scs). Qed.
+Print Assumptions C01_join_family_returns_under_wake_driven_executor.
+
 (* ---- the stream form (generic part: ScanFull.next_result, for every fixed-arity instance; here merge): from the freshly constructed merge of
         n >= 1 inputs whose scripts never panic and all reach their End, the wake-driven executor obtains the first result - an item or None -
         within [bound scs] rounds: some round r < bound returns it (the trace of that round ends with the result), no earlier round finished or
